@@ -46,7 +46,7 @@ PROPS = {
     },
     "C05": {"suites": ["programs", "unify", "pipeline"], "extra": [c05_step], "assumptions": ["completeness of the checker is decided per generated program (type-directed generator with its own expected type), not proved"]},
     "C12": {"suites": ["unify", "debruijn"], "assumptions": ["soundness of unification w.r.t. the declarative conversion is proved for the model when no hole is copied and every hole sits at least as deep as its shift (C12_unify_sound_fixed); outside these hypotheses it is false of the code (recorded findings) and the solutions are validated per run on the implementation"]},
-    "C18": {"suites": ["unify", "programs", "pipeline"], "assumptions": ["agreement with the closed program is proved for the independent checker inferX / convX / whnfX over whole contexts (Lemmas/CtxWrap.lean); for gram's own checker it is the one-step equations plus the oracle on the implementation; restoration is proved for the model and observed on the implementation for every call"]},
+    "C18": {"suites": ["unify", "programs", "pipeline"], "assumptions": ["agreement with the closed program is proved for the independent checker inferX / convX / whnfX over whole contexts (Lemmas/CtxWrap.lean) and for the model of gram's own checker over parameter contexts (Lemmas/CtxWrapS.lean); for groups in gram's own checker it is the one-step equation plus the oracle on the implementation; restoration is proved for the model and observed on the implementation for every call"]},
     "C13": {"suites": [], "extra": [c13_step],
             "rule": "launches of the real binary (fresh process, fresh hash seed) on corpus files and generated multi-diagnostic files; distinct = (file, mode) pairs",
             "assumptions": ["address-dependent behaviour (HashableRc hashes pointers, used for `contains` only) cannot be exhibited by the model; it is covered by repeated launches"]},
